@@ -17,6 +17,14 @@ fn lerp(a: f64, b: f64, th: f64) -> f64 {
     a + th * (b - a)
 }
 
+/// knobs for the low-level dense-switch twin, derived deterministically from the scenario (so that
+/// the check stays a pure function of it): non-default controller parameters matter here because
+/// the default beta = 0 hides any dependence on the controller memory
+fn low_knobs(sc: &Scenario) -> Knobs {
+    let mut rng = Rng::new(sc.x0.to_bits() ^ sc.xend.to_bits().rotate_left(17) ^ sc.y0[0].to_bits().rotate_left(31));
+    gen_knobs(&mut rng, sc.method)
+}
+
 fn n_sampled_chunks(tier: Tier) -> u64 {
     match tier {
         Tier::Quick => 2_500,
@@ -133,6 +141,8 @@ impl Prop for C12 {
         let stats = |s: &ivp::prelude::Solution| (s.nfev, s.njev, s.nlu, s.nstep, s.naccpt, s.nrejct, s.status);
         let mut full_fp = 0u64;
         let mut n_events = 0usize;
+        // what the run with only the event functions attached reports as events
+        let mut events_ref: Option<(Vec<Vec<f64>>, Vec<Vec<Vec<f64>>>, String)> = None;
         for mask in 1..8u8 {
             let mut o = plain.clone();
             if mask & 1 != 0 {
@@ -193,6 +203,20 @@ impl Prop for C12 {
                     }
                 }
             }
+            if mask & 4 != 0 {
+                // the located events themselves do not depend on the other observers either
+                match &events_ref {
+                    None => events_ref = Some((rs.t_events.clone(), rs.y_events.clone(), name.clone())),
+                    Some((te, ye, refname)) => {
+                        let same = te.len() == rs.t_events.len()
+                            && te.iter().zip(&rs.t_events).all(|(a, b)| a.len() == b.len() && a.iter().zip(b).all(|(x, y)| x.to_bits() == y.to_bits()))
+                            && ye.iter().zip(&rs.y_events).all(|(a, b)| a.len() == b.len() && a.iter().zip(b).all(|(x, y)| bits_eq(x, y)));
+                        if !same {
+                            v.push(viol(P, "events_depend_on_observers", format!("the events reported with [{name}] differ from those reported with [{refname}]: {:?} vs {:?}", rs.t_events, te)));
+                        }
+                    }
+                }
+            }
             if mask == 7 {
                 full_fp = r.fp;
                 n_events = rs.t_events.iter().map(|e| e.len()).sum();
@@ -202,6 +226,33 @@ impl Prop for C12 {
                 if r2.fp != r.fp {
                     v.push(viol(P, "not_repeatable", "repeating the same call gave a different result".into()));
                 }
+            }
+        }
+        // low level: the solver's own dense_output switch only decides whether the callback gets an
+        // interpolant - the accepted steps, their states and the step counters must not depend on it
+        // (DOP853 legitimately saves its three dense-only evaluations per step, so nfev may differ)
+        if sc.method != Meth::BDF {
+            let mut lo = plain.clone();
+            // (a fault addressed by crossing index would hit different evaluations in the two runs:
+            // DOP853 makes three evaluations fewer per step with dense output off)
+            lo.faults.clear();
+            lo.entry = Entry::Low;
+            lo.knobs = low_knobs(sc);
+            let a = run_low(&lo, false);
+            cov.note_low(&a);
+            lo.low_dense = false;
+            let b = run_low(&lo, false);
+            cov.note_low(&b);
+            if let (Verdict::Returned, Verdict::Returned) = (&a.verdict, &b.verdict) {
+                let (ra, rb) = (a.res.as_ref().unwrap(), b.res.as_ref().unwrap());
+                let same = a.n_cb == b.n_cb
+                    && ra.status == rb.status
+                    && (ra.steps.total, ra.steps.accepted, ra.steps.rejected) == (rb.steps.total, rb.steps.accepted, rb.steps.rejected)
+                    && a.cbs.iter().zip(b.cbs.iter()).all(|(p, q)| p.x.to_bits() == q.x.to_bits() && bits_eq(&p.y_in, &q.y_in));
+                if !same {
+                    v.push(viol(P, "low_level_dense_switch", format!("low-level run with dense_output(false) takes different steps than with dense_output(true): {} vs {} callbacks, status {} vs {}, knobs {:?}", b.n_cb, a.n_cb, status_name(rb.status), status_name(ra.status), lo.knobs)));
+                }
+                cov.bump("low_level_dense_twins");
             }
         }
         if ps.naccpt >= 3 && n_events >= 1 {
